@@ -229,7 +229,7 @@ def run_shard(desc):
 
 def replay(case):
     from ..probe import probe
-    o = probe().one(lc.calc_case(case["txs"], record=True))
+    o = probe().one(lc.calc_case(case["txs"], record=True, front=True))
     vs = (oracle_split_day if case.get("cls") == "split_on_trade_date" or lc.split_trade_same_day(case["txs"]) else oracle)(
         case["txs"], o, Counter(), {}, set())
     for x in vs:
